@@ -69,6 +69,7 @@ type FuncSpec struct {
 	Holds    []string
 	Allocates map[string]bool
 	DeadReturn map[int]bool // return statements (by ordinal) the contract declares unreachable
+	Binds      map[string]map[string]string // callee -> ghost parameter -> caller expression
 	Trusted  bool
 	Pure     bool
 	NoSafety bool // do not emit zero-annotation safety obligations
@@ -128,7 +129,7 @@ var clauseKeywords = map[string]bool{
 	"props": true, "trusted": true, "pure": true, "requires": true, "ensures": true,
 	"modifies": true, "ghost": true, "use": true, "on": true, "after": true, "before": true,
 	"loop": true, "invariant": true, "hint": true, "apply": true, "decreases": true, "nonnil": true, "lock": true,
-	"lockinv": true, "guarantee": true, "rely": true, "fresh": true, "exit": true, "flows": true, "assigns": true, "assumes": true, "holds": true, "allocates": true, "deadreturn": true, "nilable": true, "nosafety": true, "using": true,
+	"lockinv": true, "guarantee": true, "rely": true, "fresh": true, "exit": true, "flows": true, "assigns": true, "assumes": true, "holds": true, "allocates": true, "deadreturn": true, "bind": true, "nilable": true, "nosafety": true, "using": true,
 }
 
 type rawClause struct {
@@ -338,6 +339,30 @@ func parseContractFile(path string, requirePrefix bool) (*ContractFile, error) {
 				return nil, errf(rc, "modifies outside func")
 			}
 			curF.Modifies = append(curF.Modifies, splitNames(rc.rest)...)
+		case "bind":
+			// bind Callee.ghost = expr: the caller chooses the value of one of the
+			// callee's uninitialised ghosts (a universally quantified contract
+			// parameter) at every call of Callee
+			if curF == nil {
+				return nil, errf(rc, "bind outside func")
+			}
+			eqi := strings.Index(rc.rest, "=")
+			if eqi < 0 {
+				return nil, errf(rc, "bind Callee.ghost = expr")
+			}
+			lhs := strings.TrimSpace(rc.rest[:eqi])
+			dot := strings.LastIndex(lhs, ".")
+			if dot < 0 {
+				return nil, errf(rc, "bind Callee.ghost = expr")
+			}
+			if curF.Binds == nil {
+				curF.Binds = map[string]map[string]string{}
+			}
+			cal, gh := lhs[:dot], lhs[dot+1:]
+			if curF.Binds[cal] == nil {
+				curF.Binds[cal] = map[string]string{}
+			}
+			curF.Binds[cal][gh] = strings.TrimSpace(rc.rest[eqi+1:])
 		case "deadreturn":
 			// deadreturn 3 4: these return statements are unreachable by design
 			if curF == nil {
